@@ -578,7 +578,11 @@ Definition exec_micro (e : exec) (me : nat) (m : micro) : mres :=
           let e := upd_object e h (fun _ => OChannel (mkChan cnt (ch_last_send s) (ch_last_recv s) ss (ch_recv_sync s ++ [ss]) (ch_last_try_recv s))) in
           let e := if Nat.eqb cnt 1 then map_others e me (pending_on h) set_runnable else e in
           let rx := ho_rx (get_h e h) in
-          let e := if rx then upd_hobj e h (fun ho => ho_set_q ho (ho_q ho ++ [v])) else e in
+          (* the std send: with the receiver gone the message comes back to the sender and the
+             wrapper undoes the bookkeeping (Channel::undo_send): count and per-message view *)
+          let e := if rx then upd_hobj e h (fun ho => ho_set_q ho (ho_q ho ++ [v]))
+                   else upd_object e h (fun _ => OChannel (mkChan (ch_cnt s) (ch_last_send s) (ch_last_recv s) ss
+                                                                  (ch_recv_sync s) (ch_last_try_recv s))) in
           MOk (log_op e me (if rx then RUnit else RDisc))
       end
 
